@@ -573,7 +573,17 @@ struct EvalResult {
     blocks: usize,
 }
 
-fn evaluate(src: &str, walk_seed: u64, walks: usize) -> EvalResult {
+fn evaluate(prelude: &str, src: &str, walk_seed: u64, walks: usize) -> EvalResult {
+    // another definition converted first on the same thread (it may fail half way, inside
+    // nested scopes): nothing it leaves behind may reach the judged definition
+    if !prelude.is_empty() {
+        if let Some(pd) = parser::parse_definition(prelude) {
+            let mut scratch = ReportCollection::new();
+            if let Ok(c) = pd.into_cfg(&Curve::default(), &mut scratch) {
+                let _ = c.into_ssa();
+            }
+        }
+    }
     let mut r = EvalResult { lifted: false, ssa_ok: false, verdict: None, fingerprint: 0, phis: 0, phi3: false, scope_judged: false, renamed: false, blocks: 0 };
     let d0 = parser::parse_definition(src);
     let Some(d1) = parser::parse_definition(src) else { return r };
@@ -655,6 +665,46 @@ pub fn gen_source(seed: u64, i: usize) -> String {
     gen::render_def(&d)
 }
 
+/// Half of the definitions are converted after another one on the same thread: a random
+/// definition, or one whose conversion fails inside nested scopes that hold versions of
+/// the names the generator likes to use.
+pub fn gen_prelude(seed: u64, i: usize) -> String {
+    let mut r = Rng::new(seed).sub_n("C14-prelude", i as u64);
+    match r.usize(4) {
+        0 => {
+            let mut k = Knobs::random(&mut r);
+            k.max_stmts = 3 + r.usize(6);
+            k.anon = false;
+            k.tuples = false;
+            k.dup_params = false;
+            k.custom_templates = false;
+            gen::render_def(&gen::gen_single_def(&mut r, &k))
+        }
+        1 => {
+            let names = ["acc", "lc", "tmp", "x", "y", "z", "v", "k", "arr1", "arr2", "x_0", "x_1", "e2", "mat1", "pdz", "i", "j"];
+            let late = *r.pick(&["late_one", "zq", "n_late"]);
+            let mut body = String::new();
+            for nm in names.iter() {
+                if r.chance(1, 3) {
+                    continue;
+                }
+                if r.chance(1, 2) {
+                    body.push_str(&format!("var {nm} [ 2 ] ; {nm} [ 0 ] = n ; {nm} [ 1 ] = {nm} [ 0 ] + 1 ; "));
+                } else {
+                    body.push_str(&format!("var {nm} = n ; {nm} = {nm} + 1 ; "));
+                }
+            }
+            let nest = match r.usize(3) {
+                0 => format!("if ( n > 0 ) {{ {body} r = r + {late} ; }}"),
+                1 => format!("for ( var i = 0 ; i < n ; i ++ ) {{ {body} if ( i > 1 ) {{ r = r + {late} ; }} }}"),
+                _ => format!("if ( n > 0 ) {{ {body} }} else {{ {body} while ( r < 3 ) {{ r = r + {late} ; }} }}"),
+            };
+            format!("function pfail ( n ) {{ var r = 0 ; {nest} var {late} = 1 ; return r + {late} ; }}")
+        }
+        _ => String::new(),
+    }
+}
+
 fn block_count(src: &str) -> Option<usize> {
     // lifting may panic on what the generator wrote (C01's business): measure inside the simulator
     let s = src.to_string();
@@ -686,6 +736,7 @@ struct DefRes {
 
 fn one(seed: u64, i: usize, keys: usize, walks: usize) -> DefRes {
     let src = gen_source(seed, i);
+    let prelude = gen_prelude(seed, i);
     let mut res = DefRes { evals: 0, usable: false, fingerprints: BTreeSet::new(), violation: None, panics: 0, phis: 0, phi3: false, scope_judged: false, renamed: false, blocks: 0, sim_ns: 0, stalls_fired: 0 };
     let mut rk = Rng::new(seed).sub_n("C14-keys", i as u64);
     for k in 0..keys {
@@ -700,7 +751,8 @@ fn one(seed: u64, i: usize, keys: usize, walks: usize) -> DefRes {
         let clock_seed = plan.clock_seed;
         let s = src.clone();
         let walk_seed = rk.next_u64();
-        let (out, stats) = run_in_sim(&plan, move || evaluate(&s, walk_seed, walks));
+        let pre = prelude.clone();
+        let (out, stats) = run_in_sim(&plan, move || evaluate(&pre, &s, walk_seed, walks));
         res.evals += 1;
         res.sim_ns += stats.sim_ns;
         res.stalls_fired += stats.stalls_fired;
@@ -723,7 +775,7 @@ fn one(seed: u64, i: usize, keys: usize, walks: usize) -> DefRes {
                     res.violation = Some((
                         sig,
                         detail,
-                        json!({"kind": "C14", "seed": seed, "index": i, "key_index": k, "hashkey": key.iter().map(|b| format!("{b:02x}")).collect::<String>(), "walk_seed": walk_seed, "walks": walks, "source": src, "stall_permille": stall_permille, "clock_seed": clock_seed}),
+                        json!({"kind": "C14", "seed": seed, "index": i, "key_index": k, "hashkey": key.iter().map(|b| format!("{b:02x}")).collect::<String>(), "walk_seed": walk_seed, "walks": walks, "source": src, "prelude": prelude, "stall_permille": stall_permille, "clock_seed": clock_seed}),
                     ));
                     break;
                 }
@@ -779,6 +831,7 @@ pub fn run(env: &Env) -> i32 {
         let stall_pm = v.replay["stall_permille"].as_u64().unwrap_or(0) as u32;
         let cseed = v.replay["clock_seed"].as_u64().unwrap_or(1);
         let sig = v.signature.clone();
+        let prelude = v.replay["prelude"].as_str().unwrap_or("").to_string();
         let lines: Vec<String> = src.split_inclusive('\n').map(|s| s.to_string()).collect();
         let mut budget = 400usize;
         let kept = crate::minimise::ddmin(
@@ -787,7 +840,8 @@ pub fn run(env: &Env) -> i32 {
                 let s: String = ls.concat();
                 let mut plan = SimPlan::quiet(key, cseed);
                 plan.stall_permille = stall_pm;
-                let (out, _) = run_in_sim(&plan, move || evaluate(&s, walk_seed, walks));
+                let pre = prelude.clone();
+                let (out, _) = run_in_sim(&plan, move || evaluate(&pre, &s, walk_seed, walks));
                 matches!(out, SimResult::Ok(e) if e.verdict.as_ref().map(|(x, _)| *x == sig).unwrap_or(false))
             },
             &mut budget,
@@ -796,7 +850,8 @@ pub fn run(env: &Env) -> i32 {
         let mut plan = SimPlan::quiet(key, cseed);
         plan.stall_permille = stall_pm;
         let s2 = small.clone();
-        let (out, _) = run_in_sim(&plan, move || evaluate(&s2, walk_seed, walks));
+        let pre = prelude.clone();
+        let (out, _) = run_in_sim(&plan, move || evaluate(&pre, &s2, walk_seed, walks));
         if matches!(out, SimResult::Ok(e) if e.verdict.as_ref().map(|(x, _)| *x == v.signature).unwrap_or(false)) {
             v.replay["source"] = json!(small);
         }
@@ -867,7 +922,11 @@ pub fn replay(_env: &Env, v: &Value) -> i32 {
     println!("{src}");
     let mut plan = SimPlan::quiet(key, v["clock_seed"].as_u64().unwrap_or(1));
     plan.stall_permille = v["stall_permille"].as_u64().unwrap_or(0) as u32;
-    let (out, _) = run_in_sim(&plan, move || evaluate(&src, walk_seed, walks));
+    let prelude = v["prelude"].as_str().unwrap_or("").to_string();
+    if !prelude.is_empty() {
+        println!("converted first on the same thread:\n{prelude}\njudged definition:");
+    }
+    let (out, _) = run_in_sim(&plan, move || evaluate(&prelude, &src, walk_seed, walks));
     match out {
         SimResult::Ok(e) => match e.verdict {
             Some((sig, detail)) => {
